@@ -79,3 +79,133 @@ def judge(case, impl_out, spec):
 
 def nontrivial(case, impl_out):
     return bool(case.meta.get("conf"))
+
+
+def custom(run, tier):
+    """(1) Pass-through: the callee must receive EXACTLY the positional and keyword arguments the caller passed.  A plain
+    function cannot tell `f(a, 2)` from `f(a, y=2)`; a callee with a `(*args, **kwargs)` body under a `functools.wraps`
+    signature can, so that is what is decorated here, for every signature shape x call style of a small family.
+    (2) Provider histories (the C12 generator): a call that conforms under the mapping its provider returns at that
+    moment is never rejected — judged by the independent per-call oracle of checks/c12.py."""
+    import functools
+    import itertools
+    import typing
+    import warnings
+
+    import numpy as np
+
+    import impl
+    from framework import Finding
+
+    dltype = impl.dltype
+    A = typing.Annotated[np.ndarray, dltype.FloatTensor["a b"]]
+    good = np.zeros((2, 3), np.float32)
+    sigs = {
+        "(x: A)": (["x"], {}),
+        "(x: A, y=2.0)": (["x", "y"], {"y": 2.0}),
+        "(x: A, y: A = GOOD, *, out=None)": (["x", "y", "out"], {"y": good, "out": None}),
+        "(x: A, /, y=1, *, z=3)": (["x", "y", "z"], {"y": 1, "z": 3}),
+        "(*, x: A, flag=False)": (["x", "flag"], {"flag": False}),
+        "(x: A, *rest, k=0)": (["x", "k"], {"k": 0}),
+        "(x: A, **opts)": (["x"], {}),
+    }
+    n = 0
+    for src, (names, defaults) in sigs.items():
+        ns = {"A": A, "GOOD": good}
+        exec(f"def real{src}:\n    return None\n", ns)  # noqa: S102
+        real = ns["real"]
+        seen = []
+
+        @functools.wraps(real)
+        def inner(*args, **kwargs):
+            seen.append((args, dict(kwargs)))
+            return real(*args, **kwargs)
+
+        with warnings.catch_warnings():
+            warnings.simplefilter("ignore")
+            dec = dltype.dltyped()(inner)
+        po = "/" in src
+        ko = src.startswith("(*,")
+        calls = []
+        vals = {"x": good, "y": good if "y: A" in src else 5, "out": "o", "z": 9, "flag": True, "k": 4}
+        for use_kw, omit in itertools.product((False, True), (False, True)):
+            args, kwargs = [], {}
+            for nm in names:
+                if omit and nm in defaults:
+                    continue
+                kw_only = ko or nm in ("out", "z", "flag", "k")
+                if kw_only or (use_kw and not (po and nm == "x")):
+                    kwargs[nm] = vals[nm]
+                else:
+                    if kwargs and not kw_only:
+                        kwargs[nm] = vals[nm]
+                    else:
+                        args.append(vals[nm])
+            calls.append((tuple(args), kwargs))
+        if "*rest" in src:
+            calls.append(((good, 1, 2), {}))
+            calls.append(((good, 1), {"k": 7}))
+        if "**opts" in src:
+            calls.append(((good,), {"axis": 0, "order": "C"}))
+        for args, kwargs in calls:
+            outs = []
+            for f in (dec, inner):
+                del seen[:]
+                try:
+                    f(*args, **kwargs)
+                    outs.append(("ok", list(seen)))
+                except Exception as e:  # noqa: BLE001
+                    outs.append((type(e).__name__, list(seen)))
+            n += 1
+            (ds, dseen), (rs, rseen) = outs
+            line = f"PASSTHROUGH\t{src}\targs={len(args)}\tkwargs={sorted(kwargs)}"
+
+            def same(u, v):
+                if len(u) != len(v):
+                    return False
+                for (a1, k1), (a2, k2) in zip(u, v):
+                    if len(a1) != len(a2) or any(p is not q for p, q in zip(a1, a2)):
+                        return False
+                    if list(k1) != list(k2) or any(k1[k] is not k2[k] for k in k1):
+                        return False
+                return True
+
+            if ds != rs or not same(dseen, rseen):
+                def show(u):
+                    return [(len(a), list(k)) for a, k in u]
+
+                run.findings.append(Finding("failing-input", f"the wrapped callable of `def f{src}` was not executed with exactly the arguments the caller passed: "
+                                            f"caller passed {len(args)} positional + keywords {list(kwargs)}; undecorated sees {rs} {show(rseen)}, decorated sees {ds} {show(dseen)}",
+                                            Case(line, "passthrough"), f"{ds} {show(dseen)}", "", f"{rs} {show(rseen)}"))
+            if n % 7 == 0 and len(run.samples) < 12:
+                run.samples.append({"op": line, "impl": f"{ds} {[(len(a), list(k)) for a, k in dseen]}", "tag": "passthrough"})
+    run.n_cases += n
+    run.n_distinct_nontrivial += n
+    run.dist["passthrough"] += n
+    run.coverage["passthrough_calls"] = n
+
+    # (2) provider histories
+    from checks import c12
+
+    m = bad = 0
+    for _ in range(500 if tier == "quick" else 6000):
+        line = c12.gen(run.rng, tier)
+        got = impl.handle(line)
+        m += 1
+        try:
+            exp = c12._expected(line)
+        except Exception:  # noqa: BLE001
+            continue
+        parts = got.split(" ## ")
+        if len(exp) != len(parts) - 1:
+            continue
+        for k, ((what, e), g) in enumerate(zip(exp, parts)):
+            if what == "call" and e == "accepted" and g != "calls=1 ok":
+                bad += 1
+                if bad <= 3:
+                    run.findings.append(Finding("failing-input", f"call #{k} of the history conforms under the mapping its scope provider returns at that moment, but: {g!r}",
+                                                Case(line, "prov-hist"), got, "", "accepted"))
+                break
+    run.n_cases += m
+    run.dist["prov-hist"] += m
+    run.coverage["provider_histories"] = m
